@@ -101,7 +101,9 @@ Qed.
 (* ------------------------------------------------------------------ *)
 (* Specification 1: a dict forest mirrors a tree.  [enc i] is what the "data"
    entry of a node with payload [i] has to hold. *)
-Definition custom_id (i : info) : Prop := i_did i <> DInt (i_hash i).
+(* the node's data_id is not the default hash(data): either there is no hash
+   ([i_hash = -1] encodes "hash(data) raises TypeError") or the id differs *)
+Definition custom_id (i : info) : Prop := i_hash i = (-1)%Z \/ i_did i <> DInt (i_hash i).
 
 Inductive mirrors (enc : info -> jv) : rt -> jv -> Prop :=
 | mirrors_node : forall id i ch d js,
@@ -128,10 +130,10 @@ Proof. intros i res H1 H2. unfold sm_none, enc_name. auto. Qed.
 
 Lemma has_custom_did_true i : has_custom_did i = true <-> custom_id i.
 Proof.
-  unfold has_custom_did, custom_id, default_did. rewrite negb_true_iff.
-  split.
-  - intros E H. rewrite H, did_eqb_refl in E. discriminate.
-  - intros H. destruct (did_eqb (i_did i) (DInt (i_hash i))) eqn:E; [|reflexivity].
+  unfold has_custom_did, custom_id, unhashable. rewrite orb_true_iff, negb_true_iff, Z.eqb_eq.
+  split; (intros [H|H]; [now left|right]).
+  - intros E. rewrite E, did_eqb_refl in H. discriminate.
+  - destruct (did_eqb (i_did i) (DInt (i_hash i))) eqn:E; [|reflexivity].
     apply did_eqb_eq in E. contradiction.
 Qed.
 
@@ -197,15 +199,26 @@ Proof.
     [apply to_dict_mirrors; assumption|exact IH].
 Qed.
 
+(* the "data_id" entry the property asks for *)
+Definition opt_id (i : info) : option jv :=
+  if Z.eqb (i_hash i) (-1) then Some (jv_of_did (i_did i))
+  else if did_eqb (i_did i) (DInt (i_hash i)) then None else Some (jv_of_did (i_did i)).
+
+Lemma opt_id_custom i : (if has_custom_did i then Some (jv_of_did (i_did i)) else None) = opt_id i.
+Proof.
+  unfold has_custom_did, opt_id, unhashable. destruct (Z.eqb (i_hash i) (-1)); [reflexivity|].
+  cbn [orb]. now destruct (did_eqb (i_did i) (DInt (i_hash i))).
+Qed.
+
 (* without a mapper the dict is exactly: data[, data_id][, children] *)
 Theorem to_dict_plain_exact id i ch :
   to_dict sm_none (T id i ch) =
   JDict ([(k_data, JStr (i_name i))]
-         ++ (if did_eqb (i_did i) (DInt (i_hash i)) then [] else [(k_data_id, jv_of_did (i_did i))])
+         ++ (match opt_id i with Some v => [(k_data_id, v)] | None => [] end)
          ++ (match ch with [] => [] | _ => [(k_children, JList (map (to_dict sm_none) ch))] end)).
 Proof.
-  rewrite to_dict_unfold. unfold head_dict, sm_none, has_custom_did, default_did.
-  destruct (did_eqb (i_did i) (DInt (i_hash i))); cbn [negb]; destruct ch; reflexivity.
+  rewrite to_dict_unfold. unfold head_dict, sm_none. rewrite <- opt_id_custom.
+  destruct (has_custom_did i); destruct ch; reflexivity.
 Qed.
 
 (* ------------------------------------------------------------------ *)
@@ -316,8 +329,9 @@ Section RoundTrip.
                     else did_for default_did None i') = inl (i_did i)).
     { destruct (has_custom_did i) eqn:C.
       - apply did_for_of_did.
-      - cbn [did_for]. unfold has_custom_did in C. apply negb_false_iff, did_eqb_eq in C.
-        rewrite C. unfold default_did. destruct SD as (_ & -> & _). reflexivity. }
+      - cbn [did_for]. unfold has_custom_did in C. apply orb_false_iff in C as (C1 & C2).
+        apply negb_false_iff, did_eqb_eq in C2.
+        destruct SD as (_ & Eh & _). unfold default_did, unhashable in *. rewrite Eh, C1, C2. reflexivity. }
     assert (Edid' : did_for default_did (if has_custom_did i then Some (jv_of_did (i_did i)) else None) i' = inl (i_did i)).
     { destruct (has_custom_did i); exact Edid. }
     rewrite Edid'. change (rdid (T id i ch)) with (i_did i) in Nin. rewrite (existsb_did_false _ _ Nin).
@@ -548,7 +562,7 @@ Lemma existsb_did_false_inv dv seen : existsb (did_eqb dv) seen = false -> ~ In 
 Proof. intros E H. rewrite (existsb_did_true _ _ H) in E. discriminate. Qed.
 
 Section Safe.
-  Variables (dd : dmapper) (calc : info -> did).
+  Variables (dd : dmapper) (calc : info -> res did).
 
   Definition safe_goal (p : pt) : Prop :=
     forall seen t, fd_item dd calc p seen = inl t -> sibuniq t /\ ~ In (rdid t) seen.
@@ -600,13 +614,7 @@ Fixpoint pt_dicts (p : pt) : list jdict :=
   match p with PT d kids => d :: flat_map pt_dicts kids | PBad => [] end.
 Definition dicts_of (l : list jv) : list jdict := flat_map (fun j => pt_dicts (parse j)) l.
 
-Definition opt_id (i : info) : option jv :=
-  if did_eqb (i_did i) (DInt (i_hash i)) then None else Some (jv_of_did (i_did i)).
-
 Definition head_of (d : jdict) : option jv * option jv := (dget k_data d, dget k_data_id d).
-
-Lemma opt_id_custom i : (if has_custom_did i then Some (jv_of_did (i_did i)) else None) = opt_id i.
-Proof. unfold has_custom_did, opt_id, default_did. now destruct (did_eqb (i_did i) (DInt (i_hash i))). Qed.
 
 Lemma dicts_pre_t enc sm : sm_ok enc sm -> forall t,
   map head_of (pt_dicts (parse (to_dict sm t))) = map (fun x => (Some (enc (rinfo x)), opt_id (rinfo x))) (pre t).
@@ -657,7 +665,7 @@ Qed.
    from_dict succeeds iff no two sibling items have one effective id, and the
    only error is UniqueConstraintError. *)
 Section Refusal.
-  Variables (dd : dmapper) (calc : info -> did).
+  Variables (dd : dmapper) (calc : info -> res did).
 
   Definition eff (p : pt) : option did :=
     match p with
@@ -839,7 +847,7 @@ Qed.
    data with the item's effective id, children built from the child items in
    order.  from_dict on ANY input, when it succeeds, builds exactly that. *)
 Section Built.
-  Variables (dd : dmapper) (calc : info -> did).
+  Variables (dd : dmapper) (calc : info -> res did).
 
   Inductive built : pt -> rt -> Prop :=
   | built_node : forall d kids i dv id ch,
@@ -906,7 +914,7 @@ Section Canonical.
 
   Inductive canon : jv -> Prop :=
   | canon_item : forall s i idpart chpart,
-      dd (Some (JStr s)) = inl i -> i_name i = s ->
+      dd (Some (JStr s)) = inl i -> i_name i = s -> i_hash i <> (-1)%Z ->
       (idpart = [] \/ exists dv, idpart = [(k_data_id, jv_of_did dv)] /\ dv <> DInt (i_hash i)) ->
       (chpart = [] \/ exists c cs, chpart = [(k_children, JList (c :: cs))] /\ Forall canon (c :: cs)) ->
       canon (JDict ([(k_data, JStr s)] ++ idpart ++ chpart)).
@@ -914,7 +922,7 @@ Section Canonical.
   Lemma canon_back : forall t j, canon j -> built dd default_did (parse j) t -> to_dict sm_none t = j.
   Proof.
     induction t as [id i ch IH] using rt_ind'. intros j C B.
-    inversion C as [s i0 idpart chpart Ed En Hid Hch]; subst j.
+    inversion C as [s i0 idpart chpart Ed En Hh Hid Hch]; subst j.
     rewrite parse_dict in B.
     inversion B as [d0 k0 i1 dv id1 ch1 E1 E2 F]; subst.
     change ([(k_data, JStr (i_name i0))] ++ idpart ++ chpart) with ((k_data, JStr (i_name i0)) :: idpart ++ chpart) in *.
@@ -930,8 +938,10 @@ Section Canonical.
     { destruct Hid as [->|(dv0 & -> & _)]; destruct Hch as [->|(c & cs & -> & _)]; reflexivity. }
     rewrite Gid in E2. rewrite Kids in F.
     apply f_equal2.
-    - destruct Hid as [->|(dv0 & -> & Hne)].
-      + cbn [did_for] in E2. injection E2 as <-. unfold default_did. now rewrite did_eqb_refl.
+    - unfold opt_id. cbn [i_hash i_did mk_info]. rewrite (proj2 (Z.eqb_neq _ _) Hh).
+      destruct Hid as [->|(dv0 & -> & Hne)].
+      + cbn [did_for] in E2. unfold default_did, unhashable in E2. rewrite (proj2 (Z.eqb_neq _ _) Hh) in E2.
+        injection E2 as <-. now rewrite did_eqb_refl.
       + rewrite did_for_of_did in E2. injection E2 as <-.
         destruct (did_eqb dv0 (DInt (i_hash i0))) eqn:Eq; [apply did_eqb_eq in Eq; contradiction|reflexivity].
     - destruct Hch as [->|(c & cs & -> & Fc)].
